@@ -144,5 +144,7 @@ TableClauses(e) ==
           Cl("C14.temperature_covers", kn /\ isTemp /\ ~same, i # 0 /\ ph # 0),
           Cl("C14.temperature_physical", kn /\ isTemp /\ ~same /\ i # 0 /\ ph # 0 /\ some /\ inr,
                  IsFin(e.out.ok.a) /\ PhysWithin(a, TempPhys[ph], e.out.ok.a)),
-          Cl("C18.total.table", kn /\ (BE = "f64" \/ inr), ok) >>
+          \* decimal: in claim when the amount is in range and the amount type's own a*f + o of the row that
+          \* applies is defined (an overflow there is the amount type's, not the table's)
+          Cl("C18.total.table", kn /\ (BE = "f64" \/ (inr /\ (same \/ i = 0 \/ Ok(e.rows[i].ref)))), ok) >>
 =============================================================================
